@@ -9,6 +9,7 @@
    exA / exL = bank total minus that sum. Quantification: every world satisfying the invariant,
    every operation with a non-negative amount, every sequence of operations of any length. *)
 Require Import Base Constants Fixed Curve Bank BankOps Risk TransferFee Handlers FixedLemmas BankLemmas LedgerLemmas SolvencyWorld HandlerWorld.
+Require Import TxConstants AcctLifecycle LifecycleLedger.
 Local Open Scope Z_scope.
 
 (* the invariant holds after every sequence of operations (failed operations roll back) *)
@@ -57,6 +58,23 @@ Theorem C02_instruction_level :
   wsum (cl (bank_pk b)) (map ha_la (hw_accts (hrun w ops))) <= b_tls (hb_b hb).
 Proof. exact hrun_ledger. Qed.
 
+(* account transfer and account close (model AcctLifecycle.v of transfer_to_new_account / marginfi_account_close, tied to
+   the real handlers by the suite `acctlife`): a transfer keeps, for every bank key, the sum of the recorded asset and
+   liability shares over all accounts; a close removes only an account whose every slot holds less than 1.0 shares
+   on both sides (what the program treats as empty), so bank totals stay >= the sum of positions and the excess
+   grows only by such dust *)
+Theorem C02_transfer_keeps_position_sums :
+  forall w old new signer na fw w' k, h_transfer w old new signer na fw = Ok w' ->
+  osum (ca k) (lw_accts w') = osum (ca k) (lw_accts w) /\ osum (cl k) (lw_accts w') = osum (cl k) (lw_accts w).
+Proof. exact transfer_keeps_position_sums. Qed.
+
+Theorem C02_close_removes_only_empty_positions :
+  forall w a signer w', h_close w a signer = Ok w' ->
+  exists A, get_macct w a = Ok A /\
+    Forall (fun bl => bl_a bl < EMPTY_BALANCE_THRESHOLD /\ bl_l bl < EMPTY_BALANCE_THRESHOLD) (ma_la A) /\
+    lw_accts w' = set_nth a None (lw_accts w).
+Proof. exact close_removes_only_empty_positions. Qed.
+
 (* non-vacuity: worlds with fresh accounts satisfy the invariant, for any banks with sane share values *)
 Theorem C02_initial_world :
   forall banks n now pf, Forall (fun b => wf_sv b /\ 0 <= b_tas b /\ 0 <= b_tls b) banks ->
@@ -69,3 +87,5 @@ Print Assumptions C02_exact_deltas_and_dust.
 Print Assumptions C02_zero_totals_no_positions.
 Print Assumptions C02_initial_world.
 Print Assumptions C02_instruction_level.
+Print Assumptions C02_transfer_keeps_position_sums.
+Print Assumptions C02_close_removes_only_empty_positions.
